@@ -54,6 +54,10 @@ def xstate(en) -> XState:
         i = z3.FreshInt("n")
         en.pc.append(z3.ForAll([i], z3.Select(st.rep, i) >= 1, patterns=[z3.Select(st.rep, i)]))
         en.pc.append(st.N0 >= 0)
+        # PW_TRIG is identically true (definitional); it only gives `pointwise` formulas a trigger that the
+        # Skolem constants of a negated pointwise goal match, so an assumed pointwise fact is instantiated there
+        p_, a_, b_ = z3.FreshInt("p"), z3.FreshInt("i0"), z3.FreshInt("i1")
+        en.pc.append(z3.ForAll([p_, a_, b_], PW_TRIG(p_, a_, b_), patterns=[PW_TRIG(p_, a_, b_)]))
     return st
 
 
@@ -339,6 +343,9 @@ def detached(v, kind, item):
     return v.detached(kind, item)
 
 
+PW_TRIG = z3.Function("pw.trig", z3.IntSort(), z3.IntSort(), z3.IntSort(), z3.BoolSort())
+
+
 def pointwise(vold, vnew, kind, expected, lo=0, src=None):
     """forall p in [0, len(vnew)): content at p of vnew == expected(p, old_content_at_p or None-marker)
 
@@ -360,7 +367,8 @@ def pointwise(vold, vnew, kind, expected, lo=0, src=None):
         new_content = vnew.pl_of(s1[i1])
         old_content = vold.pl_of(s0[i0])
         exp = expected(p, old_content, len0)
-        return z3.ForAll([p, i0, i1], z3.Implies(z3.And(lo <= p, p < len1, loc1, loc0), new_content == exp))
+        return z3.ForAll([p, i0, i1], z3.Implies(z3.And(PW_TRIG(p, i0, i1), lo <= p, p < len1, loc1, loc0),
+                                                 new_content == exp), patterns=[PW_TRIG(p, i0, i1)])
     return vnew.pointwise(vold, kind, expected, lo, src)
 
 
